@@ -165,6 +165,22 @@ def fam_switch():
             d = [P(29)] if dpos else None
             prog = [Switch(s, cases, d=d), P(30), Ret(I(0))]
             out.append({"id": "c08-switch-%d-%s" % (si, dpos), "prog": prog})
+    # a case without statements that matches: nothing runs (not the default, not the next case)
+    for sv in (0, 1, 2, 5):
+        for empty in (0, 1, 2):
+            cases = [([I(0)], [P(21)]), ([I(1), PV(2, I(5))], [P(22)]), ([I(2)], [P(23)])]
+            cases[empty] = (cases[empty][0], [])
+            for d in (None, [P(29)]):         # (an empty default clause is no default clause in the tree)
+                out.append({"id": "c08-switch-empty-%d-%d-%s" % (sv, empty, "nod" if d is None else "d"), "prog": [Switch(I(sv), cases, d=d), P(30), Ret(I(0))]})
+    # break / continue leaving a try (or its catch block) that has a finally clause still act on the loop
+    for leaf, nm in ((BRK, "brk"), (CNT, "cnt")):
+        for where in ("try", "catch"):
+            body = [P(1), leaf, P(2)] if where == "try" else [P(1), Throw(S("t")), P(2)]
+            catch = [P(3)] if where == "try" else [P(3), leaf, P(4)]
+            prog = [ForIn("i", L(I(1), I(2), I(3)), [P(Id("i")), Try(body, "e", catch, f=[P(5)]), P(6)]), P(7), Ret(I(0))]
+            out.append({"id": "c08-jump-through-finally-%s-%s" % (nm, where), "prog": prog})
+            prog = [Let("n", I(0)), Loop([Let("n", Bin("+", Id("n"), I(1))), If(Bin(">", Id("n"), I(3)), [BRK]), Try(body, "e", catch, f=[P(5)]), P(6)]), P(7), Ret(I(0))]
+            out.append({"id": "c08-jump-through-finally-loop-%s-%s" % (nm, where), "prog": prog})
     # break inside switch inside loop acts on the loop
     for leaf, nm in ((BRK, "brk"), (CNT, "cnt")):
         prog = [ForIn("i", L(I(1), I(2), I(3)), [P(Id("i")), Switch(Id("i"), [([I(2)], [P(40), leaf, P(41)])], d=[P(42)]), P(43)]), P(44), Ret(I(0))]
@@ -500,6 +516,11 @@ def fam_c07():
             add("anon-" + tag, [Let("g", Fn(ps, [P(50), Ret(I(n))])), Try([P(ACall(Id("g"), *ops(n, bad)))], "e", [P(60)]), Ret(I(0))])
             if n >= 1:
                 add("defer-" + tag, [fdef, FnStmt("d", [], [Defer(Call("f", *ops(n, bad))), P(40), Ret(I(0))]), Try([E(Call("d"))], "e", [P(60)]), P(61), Ret(I(0))])
+    # indexing a value that has no elements: both operands are evaluated (item, then index), then the operation fails
+    for nm, item in (("int", I(3)), ("nil", NIL), ("bool", B(True)), ("func", Fn([], [Ret(I(1))])), ("intvar", Id("xa")), ("nilvar", Id("nv"))):
+        pre = [Let("xa", I(3)), Let("nv", NIL)]
+        add("index-noelems-%s" % nm, pre + [Try([P(Idx(PV(1, item) if nm in ("int", "nil", "bool") else item, PV(2, I(0))))], "e", [P(60)]), P(61), Ret(I(0))])
+        add("index-noelems-nilco-%s" % nm, pre + [P(Nilco(Idx(PV(1, item) if nm in ("int", "nil", "bool") else item, PV(2, I(0))), I(7))), P(61), Ret(I(0))])
     # a wrong argument count is rejected (constant operands: nothing else to observe), whatever the number of parameters and the call form
     for n in range(0, 7):
         ps = ["a%d" % j for j in range(n)]
